@@ -17,7 +17,8 @@ import numpy as np
 from .. import models
 from ..core import RunResult, adigest, mix
 from ..driver import pristine_library_state
-from .hist_common import SAME, TAU, call_value, quiet, with_entropy
+from .hist_common import SAME, TAU, quiet, with_entropy
+from .hist_common import call_value as _call_value
 
 NAME = "B9"
 PROPERTY = "C09"
@@ -29,6 +30,18 @@ RULE = ("one run = one extended game, sometimes with a second game of the same s
         "not symmetric under player exchange, two thirds with referee dimension = Bob's answer count so that the see-saw runs) and 3..6 value-method calls in seeded order, several entropy values per game; "
         "non-trivial = a lower bound was returned, >=2 entropy values were used, and the game is not won with certainty by constant answers; distinct = distinct digest of (game, operations, entropy)")
 SHRINK_ORDER = ["config", "game", "ops"]
+
+
+def _seesaw_shape_limit(e):
+    # the see-saw takes Bob's system to have the referee's dimension and one effect per answer: for games with
+    # referee_dim != number of Bob's answers cvxpy rejects the program ("Incompatible dimensions"); a documented
+    # limitation of the routine (it refuses, it does not return a wrong number), not judged here
+    return isinstance(e, ValueError) and "Incompatible dimensions" in str(e)
+
+
+def call_value(fn, res, label):
+    return _call_value(fn, res, label, prop="C09", allow=_seesaw_shape_limit if label.startswith("lower_bound") else None)
+
 
 
 def _mods():
@@ -71,10 +84,15 @@ def draw_game(st, tier, like=None):
     if like is not None:
         r, (a_out, b_out), (a_in, b_in), cplx, fam = like["referee_dim"], like["answers"], like["questions"], like["complex"], like["family"]
     rng = st.nprng()
-    kind = st.weighted([("random_psd", 3), ("indicator", 3), ("projector", 3), ("scaled", 2), ("pauli_bases", 3 if r == 2 else 0)])
+    kind = st.weighted([("random_psd", 3), ("indicator", 3), ("projector", 3), ("scaled", 2), ("pauli_bases", 3 if r == 2 else 0), ("integer_diagonal", 2)])
     if kind == "pauli_bases":
         cplx = True
     dtype = complex if cplx else float
+    if kind == "integer_diagonal":
+        # 0/1 diagonal projectors typed the way a caller who writes the game down by hand has them: an integer
+        # (or bool) array.  The game is the same game as with a float array.
+        cplx = False
+        dtype = st.choice(["int64", "int64", "int32", "int8", "bool", "float64"])
     pred = np.zeros((r, r, a_out, b_out, a_in, b_in), dtype=dtype)
     if kind == "indicator":
         # V(a,b|x,y) = [a = f(x) and b = g(y)] * P(x,y): only question-dependent answers win everything
@@ -98,6 +116,9 @@ def draw_game(st, tier, like=None):
                         if a == b or a_out == 1 or b_out == 1:
                             v = basis[(a if a_out > 1 else b) % 2]
                             pred[:, :, a, b, x, y] = np.outer(v, v.conj())
+    elif kind == "integer_diagonal":
+        for a, b, x, y in itertools.product(range(a_out), range(b_out), range(a_in), range(b_in)):
+            pred[:, :, a, b, x, y] = np.diag(rng.random(r) < 0.5)
     else:
         for a, b, x, y in itertools.product(range(a_out), range(b_out), range(a_in), range(b_in)):
             if kind == "projector":
@@ -109,15 +130,25 @@ def draw_game(st, tier, like=None):
             if rng.random() < 0.25:
                 m = m * 0
             pred[:, :, a, b, x, y] = m
-    qk = st.weighted([("uniform", 3), ("dirichlet", 3), ("with_zeros", 1)])
+    qk = st.weighted([("uniform", 3), ("dirichlet", 3), ("with_zeros", 1), ("question_never_asked", 2)])
     if qk == "uniform":
         prob = np.full((a_in, b_in), 1.0 / (a_in * b_in))
     else:
         prob = rng.random((a_in, b_in)) ** 2 + 1e-3
         if qk == "with_zeros" and a_in * b_in > 1:
             prob[rng.integers(0, a_in), rng.integers(0, b_in)] = 0.0
+        if qk == "question_never_asked":
+            # a whole row / column of the distribution is zero: one of a player's questions is never asked
+            # (preferably an early one, so that the asked questions are not a prefix of the index range)
+            who = st.draw(3)
+            if who in (0, 2) and a_in > 1:
+                prob[0 if st.draw(3) else int(rng.integers(0, a_in)), :] = 0.0
+            if who in (1, 2) and b_in > 1:
+                prob[:, 0 if st.draw(3) else int(rng.integers(0, b_in))] = 0.0
+            if prob.sum() == 0:
+                prob[-1, -1] = 1.0
         prob = prob / prob.sum()
-    meta = {"referee_dim": r, "answers": [a_out, b_out], "questions": [a_in, b_in], "pred_kind": kind, "prob_kind": qk, "complex": cplx, "family": fam}
+    meta = {"referee_dim": r, "answers": [a_out, b_out], "questions": [a_in, b_in], "pred_kind": kind, "prob_kind": qk, "complex": cplx, "family": fam, "pred_dtype": str(pred.dtype)}
     return prob, pred, meta
 
 
